@@ -5,6 +5,7 @@ import Driver.Expr
 import Driver.Sema
 import Driver.Lint
 import Driver.Render
+import Driver.Proc
 
 def dispatch (line : String) : String :=
   match (line.trimAscii.toString.splitOn " ").filter (· ≠ "") with
@@ -20,6 +21,8 @@ def dispatch (line : String) : String :=
   | "header" :: args => Driver.RenderD.handleHeader args
   | "snippet" :: args => Driver.RenderD.handleSnippet args
   | "sanitize" :: args => Driver.RenderD.handleSanitize args
+  | "proctrace" :: args => Driver.ProcD.handle args
+  | "shell" :: args => Driver.ProcD.handleShell args
   | _ => "bad-op"
 
 partial def loop (hin : IO.FS.Stream) (hout : IO.FS.Stream) : IO Unit := do
